@@ -14,6 +14,7 @@ import Cgp.Props.C12
 import Cgp.Props.C14
 import Cgp.Props.C18
 import Cgp.Props.C02
+import Cgp.Proofs.C07
 namespace Cgp.Props.C07
 open Cgp Cgp.Xdr
 
@@ -67,6 +68,66 @@ theorem delegated_needs_allowance (st : Token.State) (c : Token.Ctx) (spender sr
 theorem token_refused_unchanged (st : Token.State) (c : Token.Ctx) (op : Token.Op) (e : Token.Err)
     (h : (Token.step st c op).2 = .error e) : (Token.step st c op).1 = st := by
   exact C12.rejected_no_effect st c op e h
+
+/-! ### every live allowance was granted by the holder (history level) -/
+
+/-- a token history recorded as (state before the call, its ledger context, the call) -/
+def ttrace (st : Token.State) : List (Token.Ctx × Token.Op) → List (Token.State × Token.Ctx × Token.Op)
+  | [] => []
+  | (c, op) :: rest => (st, c, op) :: ttrace (Token.step st c op).1 rest
+
+/-- history-level invariant, from ANY start state: a positive entry afterwards is either dominated by an entry of the
+    start state (same expiration, at least that amount) or was granted by a successful, holder-authorised approve in the
+    history -/
+theorem run_allow (hist : List (Token.Ctx × Token.Op)) : ∀ (st0 : Token.State) (src spender : Addr) (a : Token.Allowance),
+    (Token.run st0 hist).allow src spender = some a → 0 < a.amount →
+    (∃ al, st0.allow src spender = some al ∧ al.expiration = a.expiration ∧ a.amount ≤ al.amount) ∨
+    (∃ st c amount evs,
+      (st, c, Token.Op.approve src spender amount a.expiration) ∈ ttrace st0 hist ∧
+      (Token.step st c (.approve src spender amount a.expiration)).2 = .ok evs ∧
+      src ∈ c.auths ∧ a.amount ≤ amount) := by
+  induction hist with
+  | nil =>
+    intro st0 src spender a hfin _
+    exact Or.inl ⟨a, hfin, rfl, Int.le_refl _⟩
+  | cons x rest ih =>
+    obtain ⟨c, op⟩ := x
+    intro st0 src spender a hfin hpos
+    simp only [Token.run] at hfin
+    rcases ih (Token.step st0 c op).1 src spender a hfin hpos with ⟨al, hal, hexp, hle⟩ | ⟨st, c', amount, evs, hmem, hr⟩
+    · have hpos' : 0 < al.amount := by omega
+      rcases C12.step_cases st0 c op with ⟨e, _, hstep⟩ | ⟨st', evs', hap, hstep⟩
+      · rw [hstep] at hal
+        exact Or.inl ⟨al, hal, hexp, hle⟩
+      · rw [hstep] at hal
+        rcases Cgp.Proofs.C07.apply_allow st0 st' c op evs' hap src spender al hal hpos' with ⟨al0, h0, hexp0, hle0⟩ | ⟨hop, hau⟩
+        · exact Or.inl ⟨al0, h0, by omega, by omega⟩
+        · subst hop
+          refine Or.inr ⟨st0, c, al.amount, evs', ?_, ?_, hau, hle⟩
+          · rw [← hexp]
+            simp only [ttrace]
+            exact List.mem_cons_self
+          · rw [← hexp, hstep]
+    · refine Or.inr ⟨st, c', amount, evs, ?_, hr⟩
+      simp only [ttrace]
+      exact List.mem_cons_of_mem _ hmem
+
+/-- **every positive allowance on record was granted by the holder**: from construction, through ANY history (any calls,
+    authorisations and ledger movements), if the token afterwards holds an allowance entry with a positive amount for
+    (holder, spender), then somewhere in that history a successful `approve(holder, spender, amount, expiration)` was
+    authorised BY THE HOLDER, for at least that amount and exactly that expiration. Delegated spending only ever lowers the
+    amount; nothing but the holder's own approval creates or raises it. Together with `token_debit_needs_subject` (the spender
+    must authorise each delegated call) no balance is ever debited without its holder's say. -/
+theorem allowance_was_granted (owner : Addr) (minter : Option Addr) (hist : List (Token.Ctx × Token.Op))
+    (src spender : Addr) (a : Token.Allowance)
+    (hfin : (Token.run (Token.construct owner minter) hist).allow src spender = some a) (hpos : 0 < a.amount) :
+    ∃ st c amount evs,
+      (st, c, Token.Op.approve src spender amount a.expiration) ∈ ttrace (Token.construct owner minter) hist ∧
+      (Token.step st c (.approve src spender amount a.expiration)).2 = .ok evs ∧
+      src ∈ c.auths ∧ a.amount ≤ amount := by
+  rcases run_allow hist (Token.construct owner minter) src spender a hfin hpos with ⟨al, hal, _, _⟩ | h
+  · simp [Token.construct] at hal
+  · exact h
 
 /-! ### gas service -/
 
